@@ -439,6 +439,22 @@ func (db *DB) processIterations() {
 }
 
 func (db *DB) doProcessIterations(iterations []*iteration) {
+	// Iterations that include the memstore can't share a scan with iterations
+	// that don't, otherwise the latter would be fed memstore data as well.
+	var withMemStore, withoutMemStore []*iteration
+	for _, it := range iterations {
+		if it.includeMemStore {
+			withMemStore = append(withMemStore, it)
+		} else {
+			withoutMemStore = append(withoutMemStore, it)
+		}
+	}
+	if len(withMemStore) > 0 && len(withoutMemStore) > 0 {
+		db.doProcessIterations(withMemStore)
+		db.doProcessIterations(withoutMemStore)
+		return
+	}
+
 	var maxDeadline time.Time
 	allHaveDeadlines := true
 	includeMemStore := false
